@@ -273,8 +273,9 @@ Theorem C13_default_beside_type_expression :
 Proof. exact R12_default_beside_type_expression. Qed.
 Print Assumptions C13_default_beside_type_expression.
 
-(** `name` / `rename` on a field that Debug shows positionally: the struct's / variant's Debug
-    item says `named_field = false`, or the fields are tuple fields and it says nothing *)
+(** `name` / `rename`, or the shorthand `Debug = name` (any name-value `Debug` item whose value is
+    not a boolean literal), on a field that Debug shows positionally: the struct's / variant's
+    Debug item says `named_field = false`, or the fields are tuple fields and it says nothing *)
 Theorem C13_name_on_positional :
   forall F d items, expand F d = Ok items -> invalid_name_on_positional F d = false.
 Proof. exact R12_name_on_positional. Qed.
@@ -594,6 +595,40 @@ Module Example.
      exists its, expand A d_default_no_type_expression = Ok its) /\
     (invalid_classes A d_default_empty_beside = [] /\
      exists its, expand A d_default_empty_beside = Ok its).
+  Proof. repeat split; try (vm_compute; reflexivity); eexists; vm_compute; reflexivity. Qed.
+
+  (** the shorthand `Debug = name` on a positionally shown field:
+      #[educe(Debug)] struct T(#[educe(Debug = first)] u8);
+      #[educe(Debug)] enum E { A, B(u8, #[educe(Debug = "x")] u16) }
+      #[educe(Debug(named_field = false))] struct S { a: u8, #[educe(Debug = first)] b: u16, c: u32 }
+      and the valid counterparts: a boolean value on a positional field,
+      #[educe(Debug)] struct T(#[educe(Debug = false)] u8);
+      the same shorthand on a field shown by name,
+      #[educe(Debug)] struct S { a: u8, #[educe(Debug = first)] b: u16, c: u32 } *)
+  Definition debug_first : attr := educe [I "Debug"; P "="; I "first"].
+  Definition debug_str_x : attr := educe [I "Debug"; P "="; TStr """x""" "x" (Some [I "x"])].
+  Definition a_first_c : fields :=
+    FNamed [fld [] (Some "a") "u8"; fld [debug_first] (Some "b") "u16"; fld [] (Some "c") "u32"].
+  Definition d_shorthand_tuple_struct :=
+    mk [educe [I "Debug"]] "T" (DStruct (FUnnamed [fld [debug_first] None "u8"])).
+  Definition d_shorthand_tuple_variant :=
+    mk [educe [I "Debug"]] "E"
+       (DEnum [var [] "A" FUnit; var [] "B" (FUnnamed [fld [] None "u8"; fld [debug_str_x] None "u16"])]).
+  Definition d_shorthand_named_off :=
+    mk [educe [I "Debug"; G Paren [I "named_field"; P "="; I "false"]]] "S" (DStruct a_first_c).
+  Definition d_shorthand_bool :=
+    mk [educe [I "Debug"]] "T" (DStruct (FUnnamed [fld [educe [I "Debug"; P "="; I "false"]] None "u8"])).
+  Definition d_shorthand_named := mk [educe [I "Debug"]] "S" (DStruct a_first_c).
+
+  Example name_shorthand_on_positional_fires :
+    (invalid_classes A d_shorthand_tuple_struct = ["name_on_positional"] /\
+     expand A d_shorthand_tuple_struct = Err E_syn) /\
+    (invalid_classes A d_shorthand_tuple_variant = ["name_on_positional"] /\
+     expand A d_shorthand_tuple_variant = Err E_syn) /\
+    (invalid_classes A d_shorthand_named_off = ["name_on_positional"] /\
+     expand A d_shorthand_named_off = Err E_syn) /\
+    (invalid_classes A d_shorthand_bool = [] /\ exists its, expand A d_shorthand_bool = Ok its) /\
+    (invalid_classes A d_shorthand_named = [] /\ exists its, expand A d_shorthand_named = Ok its).
   Proof. repeat split; try (vm_compute; reflexivity); eexists; vm_compute; reflexivity. Qed.
 
   (** the hypothesis of [C13_rejected] holds on every invalid example *)
